@@ -11,6 +11,10 @@ def plan(tier, seed):
     fun = ["util.metadata_from_many", "util.analyse_paths"]
     jobs = [ch("C14", F, h, t, fun, env=dict(VERIF_SLEN=sl)) for h in
             ("h_many_legacy", "h_many_schema_mismatch", "h_many_fast", "h_analyse_paths", "h_analyse_paths_root")]
+    # partition columns inferred from directory names: levels whose label texts overlap, with and without metadata
+    jobs.append(ch("C14", "vf/pyshim/h_c08.py", "h_hive_two_levels", t,
+                   ["api.paths_to_cats", "api._path_to_cats", "util._strip_path_tail", "util.val_to_num",
+                    "core.read_row_group (partition lines)"]))
     extra = dict(
         explanation="The real util.metadata_from_many (legacy branch and the >=3-files footer-gathering branch) and "
                     "util.analyse_paths run under CrossHair (z3): row-group counts per file, row counts, footer "
